@@ -318,7 +318,10 @@ SPECS["C16"].thorough_extra = SPECS["C16"].thorough_extra + [_RT]
 SPECS["C16"].search_extra = [_RT]
 SPECS["C16"].assumptions = SPECS["C16"].assumptions + [
     "real-time stage (thorough tier; also run as a search when the generated ticker/cut-off obligations break): eight concurrent "
-    "processors, second half 30-50 s (must correlate) or 130 s (must have been discarded) after the first, silence or unrelated traffic every 7-20 s"]
+    "processors, second half 30-50 s (must correlate) or 130 s (must have been discarded) after the first, silence or unrelated traffic every 7-20 s; "
+    "plus eight processors whose event sink stalls for 20-40 s across the first cleanup tick (one write of an unrelated session does not return, inside "
+    "RemoteLogin's flush or inside AuditdEvent), the first half produced during the stall or well before it, the second half 50-58 s later (must correlate; "
+    "judged only when the MEASURED distance stayed below the minute) or 125 s later (must have been discarded); the stage lasts about 150 s"]
 
 # C03 through the daemon's own wiring: logins on Auditd.Logins || audit lines on Auditd.Audits of the REAL Auditd.Read, forced
 # single-preemption schedules at the GenericSyncMap lock points (victim: Read's loop goroutine inside RemoteLogin, or the parser
